@@ -456,6 +456,8 @@ fn depth_worker(a: &Args) -> i32 {
             (*r.pick(&[1u32, 2, 3, 5, 8, 16, 31, 33, 63, 64, 65, 100, 127, 129, 200, 255, 257])).min(max_depth)
         };
         let dc = c18::DepthCase {
+            // a third of the chains alternate between two parsers of different configurations
+            cfg2: if i % 3 == 1 { Some(if r.chance(1, 2) { scenario::ParserCfg { ext_bits: 0, converter: "empty".into() } } else { scenario::gen_cfg(&mut r) }) } else { None },
             cfg: scenario::gen_cfg(&mut r),
             outer: if small.is_empty() { ">> a: b\nmix @x{1%g} and @@y{}\n".to_string() } else { (*r.pick(&small)).clone() },
             target: if medium.is_empty() { "@a{1} ~{2%min}\n".to_string() } else { (*r.pick(&medium)).clone() },
@@ -656,6 +658,67 @@ fn storm(a: &Args) -> i32 {
     if violations.is_empty() { 0 } else { 1 }
 }
 
+/// `Number::new_approx` over a dense grid of values and every parameter set, in an order given by
+/// `--order` (asc | desc | shuffled by --seed), one line per call. check.py runs it in three fresh
+/// processes with three orders and compares the lines after sorting: the answer for (value,
+/// accuracy, max denominator, max whole) may not depend on which other calls came before - the
+/// process-wide lazily built fraction table (and whatever sits in front of it) is the one piece of
+/// state the property's anchors name.
+fn approx_sweep(a: &Args) -> i32 {
+    let order = a.str("order", "asc");
+    let seed = a.u64("seed", 1);
+    let step = a.u64("step", 1).max(1);
+    // fractional parts on a 1e-4 grid (every `step`-th), each just below, on and just above it,
+    // with 0, 1 and 7 wholes
+    let mut calls: Vec<(f64, f32, u8, u32)> = Vec::new();
+    let dens: &[u8] = &[0, 1, 2, 3, 4, 5, 8, 10, 15, 16, 17, 32, 64, 255];
+    let mut f = 0u64;
+    while f < 10_000 {
+        for (k, off) in [0.0f64, 0.00004, -0.00004].iter().enumerate() {
+            let base = f as f64 / 10_000.0 + off;
+            if base < 0.0 {
+                continue;
+            }
+            for &d in dens {
+                // all parameter sets for the on-grid value, a rotating one for its two neighbours
+                let (acc, whole, wholes) = match (k, (f + d as u64) % 3) {
+                    (0, 0) => (1.0f32, 0u32, 0.0),
+                    (0, 1) => (0.05, 5, 1.0),
+                    (0, _) => (0.1, 100, 7.0),
+                    (_, 0) => (1.0, 100, 1.0),
+                    (_, 1) => (0.05, 0, 0.0),
+                    (_, _) => (1.0, 5, 7.0),
+                };
+                calls.push((wholes + base, acc, d, whole));
+            }
+        }
+        f += step;
+    }
+    match order.as_str() {
+        "asc" => {}
+        "desc" => calls.reverse(),
+        _ => {
+            let mut r = rng::Rng::new(mix3(seed, 0xA990, 0));
+            for i in (1..calls.len()).rev() {
+                let j = r.below(i + 1);
+                calls.swap(i, j);
+            }
+        }
+    }
+    let mut out = std::io::BufWriter::new(std::io::stdout());
+    for (v, acc, d, w) in calls {
+        let res = match std::panic::catch_unwind(|| cooklang::quantity::Number::new_approx(v, acc, d, w)) {
+            Ok(n) => format!("{n:?}"),
+            Err(_) => {
+                let _ = sim::take_last_panic();
+                "LIBRARY-PANIC".to_string()
+            }
+        };
+        let _ = writeln!(out, "{v:.5} {acc} {d} {w} => {res}");
+    }
+    0
+}
+
 fn replay(a: &Args) -> i32 {
     let path = a.pos.get(1).cloned().unwrap_or_else(|| die("replay needs a file"));
     let text = std::fs::read_to_string(&path).unwrap_or_else(|e| die(&format!("{path}: {e}")));
@@ -784,6 +847,7 @@ fn dispatch(cmd: &str, a: &Args) -> i32 {
         "depth" => depth_worker(a),
         "bigfp" => bigfp(a),
         "storm" => storm(a),
+        "approx" => approx_sweep(a),
         "c11" => c11::worker(a),
         "replay" => replay(a),
         "minimise" => minimise::run(a),
